@@ -281,7 +281,7 @@ def sock_cases(tier):
         for body in (b"abc\r\n", b"", b"abc"):
             for pre in (b"", good):
                 wire = pre + line + b"\r\n" + body + good + b"0\r\n\r\n"
-                for enc in (1, 3, 5, 9):
+                for enc in (1, 3, 5, 9, 7, 11, 13, 15):  # "can be OR'd": also several compressions at once
                     for cfg in cfgs:
                         out.append({"kind": "sockiter", "stream": f"chunksize:{line!r}/{len(body)}/{len(pre)}",
                                     "wire": wire, "cfg": cfg, "encoding": enc})
@@ -295,7 +295,8 @@ def sock_cases(tier):
 
     plain = f2 * 3
     for enc, blob in ((3, gzip.compress(plain, mtime=0)), (5, zlib.compress(plain)),
-                      (9, zlib.compressobj(wbits=-15).compress(plain) + zlib.compressobj(wbits=-15).flush())):
+                      (9, zlib.compressobj(wbits=-15).compress(plain) + zlib.compressobj(wbits=-15).flush()),
+                      (7, gzip.compress(plain, mtime=0)), (15, zlib.compress(plain))):
         bodies = [blob[:k] for k in range(0, len(blob))] + [blob + b"\x00", blob[:-1] + b"\xff", blob[1:]]
         for k, body in enumerate(bodies):
             wire = f"{len(body):x}".encode() + b"\r\n" + body + b"\r\n"
@@ -409,6 +410,12 @@ def long_runs(tier):
     for n in ((1200, 3000) if tier == "quick" else (1200, 3000, 20000)):
         for name, unit in kinds.items():
             out.append((f"{n}x{name}+F19", unit * n + good))
+    # several hundred DISTINCT valid frames through one reader (per-frame bookkeeping at capacity)
+    for n in ((600,) if tier == "quick" else (600, 5000)):
+        distinct = b"".join(pinned.frame(items.unknown_payload(4 + k % 7, 4009, k)) if k % 2 else
+                            pinned.frame(f["F19"]["payload"][:2] + bytes([k >> 8 & 0x0F, k & 0xFF])
+                                         + f["F19"]["payload"][4:]) for k in range(n))
+        out.append((f"{n} distinct frames", distinct))
     return out
 
 
